@@ -63,20 +63,21 @@ theorem chunkLoop_allowed (hsend : ∀ st res, ∃ c p, (send st res).2 = .ok (c
 end generic
 
 theorem dataLoop_allowed {σ : Type} (X : XConsts) (v : Variant) (hv : v.fallThrough = false)
-    (get : σ → Nat → Nat → σ × Outcome (Nat × List Nat)) (hget : ∀ st off len, Allowed (get st off len).2)
+    (get : σ → Nat → Nat → Nat → (σ × Outcome (Nat × List Nat)) × Nat)
+    (hget : ∀ st res off len, Allowed (get st res off len).1.2)
     (recLen : Nat) :
-    ∀ r m st acc next last, 1 ≤ r → Allowed (dataLoop X v get recLen r m st acc next last).2 := by
+    ∀ r m st res acc next last, 1 ≤ r → Allowed (dataLoop X v get recLen r m st res acc next last).2 := by
   intro r
   induction r with
-  | zero => intro m st acc next last h; omega
+  | zero => intro m st res acc next last h; omega
   | succ r ih =>
-    intro m st acc next last _
+    intro m st res acc next last _
     rw [dataLoop_succ]
     by_cases hr0 : r = 0
     · simp [hr0, Allowed]
     · simp only [if_neg hr0]
-      have hg := hget st acc.length (if acc.length + m > recLen then recLen - acc.length else m)
-      rcases hgd : get st acc.length (if acc.length + m > recLen then recLen - acc.length else m) with ⟨st1, o⟩
+      have hg := hget st res acc.length (if acc.length + m > recLen then recLen - acc.length else m)
+      rcases hgd : get st res acc.length (if acc.length + m > recLen then recLen - acc.length else m) with ⟨⟨st1, o⟩, res1⟩
       rw [hgd] at hg
       cases o with
       | ok p =>
@@ -84,7 +85,7 @@ theorem dataLoop_allowed {σ : Type} (X : XConsts) (v : Variant) (hv : v.fallThr
         simp only
         split
         · simp [Allowed]
-        · exact ih _ _ _ _ _ (by omega)
+        · exact ih _ _ _ _ _ _ (by omega)
       | ccError c =>
         simp only [hv]
         by_cases hc : c = X.cantReturn
@@ -92,7 +93,7 @@ theorem dataLoop_allowed {σ : Type} (X : XConsts) (v : Variant) (hv : v.fallThr
           by_cases hm : m ≤ X.reqLenDec
           · simp [if_pos hm, Allowed]
           · simp only [if_neg hm, Bool.false_eq_true, if_false]
-            exact ih _ _ _ _ _ (by omega)
+            exact ih _ _ _ _ _ _ (by omega)
         · simp [if_neg hc, Allowed]
       | retryError => simp [recast, Allowed]
       | _ => simp [Allowed] at hg
@@ -170,7 +171,8 @@ theorem getSdrDataWith_allowed {cfg : Cfg} (hw : cfg.wf) (v : Variant) (hv : v.f
     Allowed (getSdrDataWith K XK v (step cfg) s st id res).2 := by
   unfold getSdrDataWith
   have hc := getChunk_allowed hw v s st res id 0 XK.hdrLen
-  rcases hg : getChunk K v (step cfg) s st res id 0 XK.hdrLen with ⟨st1, o⟩
+  rcases hgf : getFn K v (step cfg) s id st res 0 XK.hdrLen with ⟨⟨st1, o⟩, res1⟩
+  have hg := getFn_eq hgf
   rw [hg] at hc
   cases o with
   | ok p =>
@@ -184,16 +186,16 @@ theorem getSdrDataWith_allowed {cfg : Cfg} (hw : cfg.wf) (v : Variant) (hv : v.f
       rw [hb]; simp [effCount, XK, PyIpmi.Gen.Loops11.xconsts]
     have hl5 : d1.length = 5 := by rw [hd1]; simp; omega
     rw [if_neg (by omega)]
-    exact dataLoop_allowed XK v hv _ (fun st off len => getChunk_allowed hw v s st res _ off len) _ _ _ _ _ _ _
+    exact dataLoop_allowed XK v hv _ (fun st res off len => getChunk_allowed hw v s st res _ off len) _ _ _ _ _ _ _ _
       (by decide)
   | retryError => simp [recast, Allowed]
   | ccError c => simp [recast, Allowed]
   | _ => simp [Allowed] at hc
 
-theorem getSdrData_allowed {cfg : Cfg} (hw : cfg.wf) (v : Variant) (hv : v.fallThrough = false) (s : Store)
+theorem getSdrDataR_allowed {cfg : Cfg} (hw : cfg.wf) (v : Variant) (hv : v.fallThrough = false) (s : Store)
     (st : State) (id : Nat) (hid : id < 65536) (res? : Option Nat) :
-    Allowed (getSdrData K XK v (step cfg) s st id res?).2 := by
-  unfold getSdrData
+    Allowed (getSdrDataR K XK v (step cfg) s st id res?).2 := by
+  unfold getSdrDataR
   cases res? with
   | some r => exact getSdrDataWith_allowed hw v hv s st id hid r
   | none =>
@@ -206,5 +208,13 @@ theorem getSdrData_allowed {cfg : Cfg} (hw : cfg.wf) (v : Variant) (hv : v.fallT
     | retryError => simp [recast, Allowed]
     | ccError c => simp [recast, Allowed]
     | _ => simp [Allowed] at hr
+
+theorem dropRes_allowed {α : Type} {o : Outcome (α × Nat)} (h : Allowed o) : Allowed (dropRes o) := by
+  cases o <;> simp_all [Allowed, dropRes, recast]
+
+theorem getSdrData_allowed {cfg : Cfg} (hw : cfg.wf) (v : Variant) (hv : v.fallThrough = false) (s : Store)
+    (st : State) (id : Nat) (hid : id < 65536) (res? : Option Nat) :
+    Allowed (getSdrData K XK v (step cfg) s st id res?).2 :=
+  dropRes_allowed (getSdrDataR_allowed hw v hv s st id hid res?)
 
 end PyIpmi.Model.SdrXfer
